@@ -14,7 +14,7 @@ import vlib
 
 LEVEL = "model_checking"
 HARNESS = "c19_adjacency"
-GINV = "InputsValid LawSingle LawSort LawCompose LawInvolution LawPermute LawRename LawMatPerm Emit"
+GINV = "InputsValid LawSingle LawSort LawCompose LawInvolution LawPermute LawRename LawMatPerm LawDyn LawDyn2 LawDynEdit Emit"
 PINV = "ObjValid SwapLaw CtorLaw InverseLaw ConcatLaw Emit"
 MAXPAR = 5          # TLC processes at a time
 
@@ -303,7 +303,8 @@ def run(chk):
     chk.extra["cases_by_op"] = byop
     chk.rule = ("G: every post-state of spec/AdjacencyGraph.tla (all graphs with nd, ni <= 3 and <= 2-3 images per node with duplicates and "
                 "order x 8 render types, sort, inspect; all composition pairs within the bounds; all domain/image permutation pairs; all "
-                "CSR patterns x permutation pairs) and spec/AdjacencyPerm.tla (all permutations of length 0..5 x 5 constructor kinds x "
+                "CSR patterns x permutation pairs; DynamicGraph from every render type (single and composite), compose, insert/erase from every "
+                "relation, clear, conversion back to Graph) and spec/AdjacencyPerm.tla (all permutations of length 0..5 x 5 constructor kinds x "
                 "apply/inverse/clone/map/concat) and spec/AdjacencyColor.tla (all colour arrays on <= 4/5 nodes with <= 4/5 declared colours x "
                 "4 constructors x inspect/clone/create_partition_graph), result predicted by the spec and compared exactly (as bags where order is not "
                 "contractual). V: every undirected graph on <= 4/5 nodes x storage variants x colouring orders x 18 Cuthill-McKee "
